@@ -32,19 +32,18 @@ Definition learn (kn : known) (o : op) (x : obs) : known :=
   | OpAuthorize r, Out (ONav _ _ nv) =>
       match ar_pol r with
       | PolSuccess sub granted =>
-          let gi := mkGI (ar_client r) sub granted (n_code nv) in
+          (* the implicit token delivered alongside a code belongs to its own grant: origin 0 *)
           mkKnown (k_cbs kn)
-            (if is_nil (n_code nv) then k_codes kn else (n_code nv, gi) :: k_codes kn)
-            (if is_nil (n_at nv) then k_ats kn else (n_at nv, gi) :: k_ats kn) (k_rts kn)
+            (if is_nil (n_code nv) then k_codes kn else (n_code nv, mkGI (ar_client r) sub granted (n_code nv)) :: k_codes kn)
+            (if is_nil (n_at nv) then k_ats kn else (n_at nv, mkGI (ar_client r) sub granted 0) :: k_ats kn) (k_rts kn)
       | _ => kn
       end
   | OpCallback r, Out (ONav _ _ nv) =>
       match cb_pol r, lookup (cb_id r) (k_cbs kn) with
       | PolSuccess sub granted, Some cl =>
-          let gi := mkGI cl sub granted (n_code nv) in
           mkKnown (k_cbs kn)
-            (if is_nil (n_code nv) then k_codes kn else (n_code nv, gi) :: k_codes kn)
-            (if is_nil (n_at nv) then k_ats kn else (n_at nv, gi) :: k_ats kn) (k_rts kn)
+            (if is_nil (n_code nv) then k_codes kn else (n_code nv, mkGI cl sub granted (n_code nv)) :: k_codes kn)
+            (if is_nil (n_at nv) then k_ats kn else (n_at nv, mkGI cl sub granted 0) :: k_ats kn) (k_rts kn)
       | _, _ => kn
       end
   | OpToken GAuthorizationCode r, Out (OTokens t) =>
@@ -116,3 +115,195 @@ Definition mon_C04 := run_monitor clause_C04.
 Definition mon_scope_case (c : scopecase) : N :=
   if andb (fc_allowed c) (negb (are_scopes_allowed (fc_client c) (fc_avail c) (fc_req c))) then 1001
   else if andb (fc_contains c) (negb (contains_all_scopes (fc_granted c) (fc_req c))) then 1001 else 0.
+
+(* ================================================================================== *)
+(* One-time credentials.  cons cfg o x = Some v: operation o, answered x, CONSUMED credential v;
+   acc cfg o x = Some v: operation o was ACCEPTED on presentation of v.  Theorems: Proofs/OneShot.v *)
+(* 0: no consumed credential was ever accepted again; k: operation k (1-based) accepted a dead one *)
+Fixpoint once_from (cons acc : config -> op -> obs -> option id) (cfg : config) (used : list id) (k : nat) (ops : list op) (xs : list obs) : N :=
+  match ops, xs with
+  | o :: ops', x :: xs' =>
+      if match acc cfg o x with Some v => andb (memN v used) (negb (is_nil v)) | None => false end
+      then N.of_nat (S k)
+      else once_from cons acc cfg (match cons cfg o x with Some v => v :: used | None => used end) (S k) ops' xs'
+  | _, _ => 0
+  end.
+
+Definition is_tokens (o : out) : bool := match o with OTokens _ => true | _ => false end.
+
+Definition cons_code (_ : config) (o : op) (x : obs) : option id :=
+  match o, x with
+  | OpToken GAuthorizationCode r, Out (OTokens _) => Some (t_code r)
+  | _, _ => None
+  end.
+
+Definition has_tokens_notif (ns : list notif) : bool := existsb (fun nf => negb (is_nil (nf_at nf))) ns.
+
+Definition cons_ciba (_ : config) (o : op) (x : obs) : option id :=
+  match o, x with
+  | OpToken GCiba r, Out (OTokens _) => Some (t_auth_req r)
+  | OpNotifyOk a _, Notified true ns => if has_tokens_notif ns then Some a else None
+  | _, _ => None
+  end.
+
+(* the embedder calls the Notify API with the auth_req_id of a request it was given *)
+Definition wf_op (o : op) : Prop :=
+  match o with OpNotifyOk a _ => a <> 0 | OpNotifyFail a => a <> 0 | _ => True end.
+
+Definition started (o : out) : bool :=
+  match o with
+  | OPage _ => true
+  | ONav _ _ nv => match n_err nv with None => true | Some _ => false end
+  | _ => false
+  end.
+
+Definition cons_par (cfg : config) (o : op) (x : obs) : option id :=
+  match o, x with
+  | OpAuthorize r, Out out =>
+      if andb (cf_par_enabled cfg) (andb (negb (is_nil (p_request_uri (ar_params r)))) (started out))
+      then Some (p_request_uri (ar_params r)) else None
+  | _, _ => None
+  end.
+
+Definition is_nav (o : out) : bool := match o with ONav _ _ _ => true | _ => false end.
+
+Definition is_page (o : out) : bool := match o with OPage _ => true | _ => false end.
+
+Definition cons_cb (_ : config) (o : op) (x : obs) : option id :=
+  match o, x with
+  | OpCallback r, Out out => if is_nav out then Some (cb_id r) else None
+  | _, _ => None
+  end.
+
+Definition acc_cb (_ : config) (o : op) (x : obs) : option id :=
+  match o, x with
+  | OpCallback r, Out out => if orb (is_nav out) (is_page out) then Some (cb_id r) else None
+  | _, _ => None
+  end.
+
+Definition cons_rt (cfg : config) (o : op) (x : obs) : option id :=
+  match o, x with
+  | OpToken GRefreshToken r, Out (OTokens _) => if cf_refresh_rotation cfg then Some (t_refresh r) else None
+  | _, _ => None
+  end.
+
+(* accepted: any successful refresh *)
+Definition acc_rt (_ : config) (o : op) (x : obs) : option id :=
+  match o, x with
+  | OpToken GRefreshToken r, Out (OTokens _) => Some (t_refresh r)
+  | _, _ => None
+  end.
+
+
+(* ================================================================================== *)
+(* C03 *)
+Definition origin_replayed (kn : known) (replayed : list id) (refresh : bool) (h : id) : bool :=
+  match lookup h (if refresh then k_rts kn else k_ats kn) with
+  | Some gi => andb (negb (is_nil (gi_origin gi))) (memN (gi_origin gi) replayed)
+  | None => false
+  end.
+Fixpoint c03_from (cfg : config) (kn : known) (redeemed replayed : list id) (k : nat) (ops : list op) (xs : list obs) : N :=
+  match ops, xs with
+  | o :: ops', x :: xs' =>
+      let bad : N :=
+        match o, x with
+        | OpToken GAuthorizationCode r, Out (OTokens _) =>
+            if memN (t_code r) redeemed then 1 else
+            match lookup (t_code r) (k_codes kn) with
+            | Some gi => if ideq (gi_client gi) (cr_id (t_cred r)) then 0 else 2
+            | None => 0 end
+        | OpIntrospect r, Out (OIntro i) =>
+            if andb (in_active i) (origin_replayed kn replayed (in_refresh i) (ptok_exact (q_tok r))) then 6 else 0
+        | OpUserInfo r, Out (OUserInfo _) =>
+            if origin_replayed kn replayed false (ptok_exact (u_tok r)) then 6 else 0
+        | OpToken GRefreshToken r, Out (OTokens _) =>
+            if origin_replayed kn replayed true (t_refresh r) then 6 else 0
+        | _, _ => 0
+        end in
+      match bad with
+      | 0 =>
+        c03_from cfg (learn kn o x)
+          (match cons_code cfg o x with Some v => v :: redeemed | None => redeemed end)
+          (match o, x with
+           | OpToken GAuthorizationCode r, Out (OErr EInvalidGrant) =>
+               if memN (t_code r) redeemed then t_code r :: replayed else replayed
+           | _, _ => replayed end)
+          (S k) ops' xs'
+      | c => viol c k
+      end
+  | _, _ => 0
+  end.
+Definition with_cfg (f : config -> list op -> list obs -> N) (c : syscase) : N :=
+  match build (sc_profile c) (sc_opts c) with Some cfg => f cfg (sc_ops c) (sc_obs c) | None => 0 end.
+Definition mon_C03 := with_cfg (fun cfg ops xs => c03_from cfg known0 [] [] 0 ops xs).
+
+(* C10 *)
+Definition clause_C10 (cfg : config) (kn : known) (now : Z) (o : op) (x : obs) : N :=
+  match o, x with
+  | OpToken GRefreshToken r, Out (OTokens t) =>
+      match lookup (t_refresh r) (k_rts kn) with
+      | Some gi =>
+          if negb (ideq (gi_client gi) (cr_id (t_cred r))) then 2
+          else if negb (contains_all_scopes (gi_granted gi) (t_scope r)) then 3
+          else if andb (cf_refresh_rotation cfg) (orb (is_nil (tr_rt t)) (ideq (tr_rt t) (t_refresh r))) then 5
+          else 0
+      | None => 0 end
+  | OpIntrospect r, Out (OIntro i) =>
+      if andb (in_active i) (in_refresh i) then
+        match lookup (ptok_exact (q_tok r)) (k_rts kn) with
+        | Some gi => if contains_all_scopes (gi_granted gi) (in_scope i) then 0 else 3
+        | None => 0 end
+      else 0
+  | _, _ => 0
+  end.
+Definition mon_C10 (c : syscase) : N :=
+  match with_cfg (fun cfg ops xs => once_from cons_rt acc_rt cfg [] 0 ops xs) c with
+  | 0 => run_monitor clause_C10 c
+  | k => 1000 + k
+  end.
+
+(* C16 *)
+Definition client_of (c : syscase) (i : id) : option client :=
+  match find (fun cl => ideq (c_id cl) i) (sc_static c) with Some cl => Some cl | None => find (fun cl => ideq (c_id cl) i) (sc_dyn c) end.
+Fixpoint c16_from (cs : syscase) (reqs : list (id * (id * id))) (k : nat) (ops : list op) (xs : list obs) : N :=
+  match ops, xs with
+  | o :: ops', x :: xs' =>
+      let bad : N :=
+        match o, x with
+        | OpToken GCiba r, Out (OTokens _) =>
+            if match t_ba r with BaApprove => false | _ => true end then 3 else
+            match lookup (t_auth_req r) reqs with
+            | Some (cl, _) =>
+                if negb (ideq cl (cr_id (t_cred r))) then 2 else
+                match client_of cs cl with Some c => (match c_ciba_mode c with CibaPush => 4 | _ => 0 end) | None => 0 end
+            | None => 0 end
+        | OpNotifyOk a _, Notified _ ns | OpNotifyFail a, Notified _ ns =>
+            match lookup a reqs with
+            | Some (cl, tok) =>
+                match client_of cs cl with
+                | Some c => if forallb (fun nf => andb (ideq (nf_ep nf) (c_notif_ep c)) (andb (ideq (nf_bearer nf) tok) (ideq (nf_auth_req nf) a))) ns then 0 else 5
+                | None => 0 end
+            | None => match ns with [] => 0 | _ => 5 end
+            end
+        | _, _ => 0
+        end in
+      match bad with
+      | 0 => c16_from cs (match o, x with
+                          | OpBcAuthorize r, Out (OCiba a _) => (a, (cr_id (br_cred r), p_notif_token (br_params r))) :: reqs
+                          | _, _ => reqs end) (S k) ops' xs'
+      | c => viol c k
+      end
+  | _, _ => 0
+  end.
+Definition mon_C16 (c : syscase) : N :=
+  match with_cfg (fun cfg ops xs => once_from cons_ciba cons_ciba cfg [] 0 ops xs) c with
+  | 0 => c16_from c [] 0 (sc_ops c) (sc_obs c)
+  | k => 1000 + k
+  end.
+
+(* C17: a finished callback id / a redeemed request_uri is never accepted again *)
+Definition mon_C17 (c : syscase) : N :=
+  match with_cfg (fun cfg ops xs => once_from cons_cb acc_cb cfg [] 0 ops xs) c with
+  | 0 => match with_cfg (fun cfg ops xs => once_from cons_par cons_par cfg [] 0 ops xs) c with 0 => 0 | k => 2000 + k end
+  | k => 1000 + k
+  end.
